@@ -83,5 +83,25 @@ OVER_EXACT = dict(
     ensures=[],
 )
 
-CONTRACTS = [PERCENT, SUBSET_IDX, SUBSET_PCT, REPEAT, SHUFFLE]
+# ---- class filter: precisely the allowed classes, in original order
+def class_filter(valid):
+    arg = "valid_classes" if valid else "invalid_classes"
+    member = f"exists(lambda t: 0 <= t and t < len({arg}) and {arg}[t] == LabelOf(dataset, i))"
+    keep = member if valid else f"not ({member})"
+    return dict(
+        target=f"{W}/class_filter_wrapper.py::ClassFilterWrapper.__init__",
+        name=f"{W}/class_filter_wrapper.py::ClassFilterWrapper.__init__[{arg}]", self={}, merge=False,
+        params={"dataset": LABELDATASET, "valid_classes": TSeq(INT, mutable=False) if valid else TNone(),
+                "invalid_classes": TNone() if valid else TSeq(INT, mutable=False), "valid_class_names": TNone(), "invalid_class_names": TNone()},
+        ensures=[
+            # an order preserving filter of range(n): strictly increasing, sound and complete
+            f"forall(lambda k: implies(0 <= k and k + 1 < len(self.indices), self.indices[k] < self.indices[k + 1]))",
+            f"forall(lambda k: implies(0 <= k and k < len(self.indices), 0 <= self.indices[k] and self.indices[k] < {N} and "
+            f"({keep.replace('LabelOf(dataset, i)', 'LabelOf(dataset, self.indices[k])')})))",
+            f"forall(lambda i: implies(0 <= i and i < {N} and ({keep}), exists(lambda k: 0 <= k and k < len(self.indices) and self.indices[k] == i)))",
+        ],
+    )
+
+
+CONTRACTS = [PERCENT, SUBSET_IDX, SUBSET_PCT, REPEAT, SHUFFLE, class_filter(True), class_filter(False)]
 TERMINATION = [OVER_EXACT]
